@@ -20,7 +20,7 @@ RULE = ('Hypothesis RuleBasedStateMachine over a fixed universe of 9 tasks (Pick
         'PickleCache subclass, one cache=None type; dependency edges between them; two tasks whose success depends on a context '
         'flag so the same task fails in one step and succeeds in a later one). Machine parameters: storage provider in '
         '{LocalStorage, storage=None, FsspecStorage on fsspec LocalFileSystem, FsspecStorage on fsspec MemoryFileSystem}. Rules: '
-        'run_tasks(subset, bust_cache, flags, backend in {serial, fork, schedule-controlled}), uncache_tasks(subset) through the long-lived session Lab or through another Lab object on the same storage, '
+        'run_tasks(subset, bust_cache, flags, backend in {serial, fork, schedule-controlled}) - for a single task also through Lab.run_task -, uncache_tasks(subset) through the long-lived session Lab or through another Lab object on the same storage, '
         'is_cached(task), cached_tasks(type subset), new Lab on the same storage. Oracle: a dictionary model task -> stored value '
         'stepped in lock-step (reference evaluator decides what a run executes/loads/returns and which entries it adds or '
         'replaces); after every rule is_cached of all 9 tasks, cached_tasks per type and the set of storage keys must equal the '
@@ -91,7 +91,7 @@ class Session:
         shutil.rmtree(self.dir, ignore_errors=True)
 
     # -- operations -------------------------------------------------------------------------------
-    def run(self, subset, bust, fa, ff, backend, schedule) -> list:
+    def run(self, subset, bust, fa, ff, backend, schedule, via_run_task: bool = False) -> list:
         out = []
         self.step += 1
         nonce = f'run{self.step}'
@@ -111,7 +111,11 @@ class Session:
         lab = labtech.Lab(storage=self.lab._storage if self.kind != 'none' else None,
                           runner_backend=rb, context=context, notebook=False, max_workers=2)
         try:
-            res = lab.run_tasks(tasks, bust_cache=bust, disable_progress=True, disable_top=True)
+            if via_run_task and len(tasks) == 1 and ex.status.get(subset[0]) in ('ok', 'loaded'):
+                # the single-task convenience entry point ("supports the same keyword arguments as run_tasks")
+                res = {tasks[0]: lab.run_task(tasks[0], bust_cache=bust, disable_progress=True, disable_top=True)}
+            else:
+                res = lab.run_tasks(tasks, bust_cache=bust, disable_progress=True, disable_top=True)
         except Exception as e:
             from pbt.oracles import exc_site, exc_text
             return [core.Finding(f'C08:run_tasks-raised:{type(e).__name__}@{exc_site(e)}', exc_text(e))]
@@ -246,7 +250,7 @@ def replay_ops(storage_kind: str, ops: list) -> tuple[list, list]:
 
 
 def make_machine(rec: core.Recorder, storage_kind: str, state: dict, backends):
-    subsets = st.lists(st.integers(0, 8), min_size=1, max_size=4, unique=True)
+    subsets = st.one_of(st.lists(st.integers(0, 8), min_size=1, max_size=1), st.lists(st.integers(0, 8), min_size=1, max_size=4, unique=True))
 
     class CacheMachine(RuleBasedStateMachine):
         def __init__(self):
@@ -264,9 +268,9 @@ def make_machine(rec: core.Recorder, storage_kind: str, state: dict, backends):
                 raise core.PropertyViolation(bad[0].signature)
 
         @rule(subset=subsets, bust=st.booleans(), fa=st.booleans(), ff=st.booleans(), backend=st.sampled_from(backends),
-              schedule=st.lists(st.integers(0, 7), max_size=12))
-        def run(self, subset, bust, fa, ff, backend, schedule):
-            self.do(['run', subset, bust, fa, ff, backend, schedule])
+              schedule=st.lists(st.integers(0, 7), max_size=12), via_run_task=st.booleans())
+        def run(self, subset, bust, fa, ff, backend, schedule, via_run_task):
+            self.do(['run', subset, bust, fa, ff, backend, schedule, via_run_task])
 
         @rule(subset=st.lists(st.integers(0, 8), min_size=1, max_size=5, unique=True), other_lab=st.booleans())
         def uncache(self, subset, other_lab):
